@@ -32,11 +32,11 @@ Print Assumptions C10_ends_empty.
 
 (* the same for T.cleanup on any T (the inner T of a Custom attempt included) *)
 Theorem C10_cleanup_empties :
-  forall geom LF lvl s r,
-    res (cleanup LF (exec geom LF lvl) s) = Ok r ->
-    ts (post (cleanup LF (exec geom LF lvl) s))
-    = mkT (failed (ts (post (cleanup LF (exec geom LF lvl) s)))) [] false false
-          (skipreq (ts (post (cleanup LF (exec geom LF lvl) s)))).
+  forall geom LF lvl inner s r,
+    res (cleanup LF (exec geom LF lvl) inner s) = Ok r ->
+    ts (post (cleanup LF (exec geom LF lvl) inner s))
+    = mkT (failed (ts (post (cleanup LF (exec geom LF lvl) inner s)))) [] false false
+          (skipreq (ts (post (cleanup LF (exec geom LF lvl) inner s)))).
 Proof. exact cleanup_end. Qed.
 Print Assumptions C10_cleanup_empties.
 
